@@ -140,7 +140,16 @@ def f_r2_init(schema: Schema, rep: Report):
     sp = params_of(sfn)
     stores = [s for s in own_statements(sfn) if isinstance(s, ast.Assign) and isinstance(s.targets[0], ast.Subscript)]
     sx = Expander(sfn)
-    ok = bool(stores) and all(sx.t(s.targets[0]) == f"{sp[1]}.__dict__[self.name]" and sx.t(s.value) == f"self.convert({sp[2]})" for s in stores)
+    def _stored_value(s_):
+        """text of what is stored, looking through `value = self.convert(value)` (the parameter re-bound to its conversion)"""
+        t_ = sx.t(s_.value)
+        if isinstance(s_.value, ast.Name):
+            prior = [a_ for a_ in own_statements(sfn) if isinstance(a_, ast.Assign) and len(a_.targets) == 1 and isinstance(a_.targets[0], ast.Name) and a_.targets[0].id == s_.value.id and a_.lineno < s_.lineno]
+            if len(prior) == 1:
+                t_ = text(prior[0].value)
+        return t_
+
+    ok = bool(stores) and all(sx.t(s.targets[0]) == f"{sp[1]}.__dict__[self.name]" and _stored_value(s) == f"self.convert({sp[2]})" for s in stores)
     rep.check("F-R2", "Element.__set__:stores-convert(value)", ok, "the descriptor does not store self.convert(value) under its own name on the instance" if not ok else "", f"{p.module(TYPES).relpath}:{sfn.lineno}")
     # no subclass of Element overrides __set__ / __get__ (Unsupported is not an Element)
     from . import dispatch as D
